@@ -496,5 +496,5 @@ pub fn run(ctx: &mut Ctx) {
 	ctx.rule = "a main jar of five classes (A <- B <- C, D, interface I; A may extend a library class or a class outside every jar) with 1-5 generated delegate/synthetic pairs: the synthetic method's parameter and return types are position-wise equal / Object / a super type / an unrelated type / a type outside the jar, arity may differ; synthetic and bridge flags independently on or off; private / static / final; the body calls the delegate once, not at all, twice, together with another method, or a delegate in the super class; same or different names. calamus (official->intermediary) and named (intermediary->named) mapping sets name or do not name the classes, the bridges (in their class or in a super class) and the delegates. Oracle: the statement's predicate gives the bridge->delegate pairs (compared with get_specialized_methods) and a reference remapper gives the name of the bridge through inheritance; the produced mappings must equal the input plus exactly these entries (existing entries keep comment and parameters). Where a super type of the delegate's type lies outside the jar the statement does not decide compatibility and either outcome is accepted. Non-trivial = >=1 true bridge and >=1 near miss; distinct by case hash".into();
 	ctx.assume("at most one bridge per delegate and class");
 	ctx.assume("inheritance is acyclic");
-	ctx.run_sub("bridges", ctx.tier.pick(24000, 1200000), strategy, check);
+	ctx.run_sub("bridges", ctx.tier.pick(96000, 1200000), strategy, check);
 }
